@@ -44,6 +44,12 @@ type WorkerResult struct {
 
 var hangLimitMs = int64(20000)
 
+// shrinking / shrinkTick let the watchdog cover minimisation too: every
+// candidate run restarts the clock, and a candidate that never returns ends
+// the worker instead of hanging the check.
+var shrinking atomic.Bool
+var shrinkTick = func() {}
+
 // LoadWorldFromReplay reads the world out of a replay file.
 func LoadWorldFromReplay(path string) (*World, error) {
 	b, err := os.ReadFile(path)
@@ -89,6 +95,16 @@ func RunWorker(spec WorkerSpec) *WorkerResult {
 			case <-time.After(time.Second):
 			}
 			if s := curStart.Load(); s != 0 && time.Now().UnixMilli()-s > hangLimitMs {
+				if shrinking.Load() {
+					// a shrink candidate does not return: keep what was found
+					// (the un-minimised violation is already in the result) and stop
+					// this worker; its remaining runs are simply not done
+					res.Stats = NewStats()
+					res.Stats.Probes["shrink_candidate_hung"] = 1
+					res.Completed = false
+					WriteResult(res)
+					os.Exit(0)
+				}
 				res.Hang = curWorld.Load()
 				res.Stats = NewStats() // the live one is being written by the stuck run
 				WriteResult(res)
@@ -149,14 +165,21 @@ func RunWorker(spec WorkerSpec) *WorkerResult {
 		}
 		if v != nil {
 			if classes[v.Class()] < 2 && len(res.Violations) < spec.MaxViol {
-				// minimise here, where a *testing.T exists for the bubble engine
-				curStart.Store(0)
+				// minimise here, where a *testing.T exists for the bubble engine.
+				// The un-minimised violation is recorded first: if a shrink
+				// candidate hangs, the watchdog ends this worker and it survives.
+				res.Violations = append(res.Violations, v)
 				if v.Kind != "hang" && spec.ShrinkS > 0 {
 					found := v.World.Seed
-					v = Shrink(p, v, time.Duration(spec.ShrinkS)*time.Second)
-					v.World.Seed = found
+					shrinking.Store(true)
+					shrinkTick = func() { curStart.Store(time.Now().UnixMilli()) }
+					shrinkTick()
+					mv := Shrink(p, v, time.Duration(spec.ShrinkS)*time.Second)
+					shrinking.Store(false)
+					mv.World.Seed = found
+					res.Violations[len(res.Violations)-1] = mv
 				}
-				res.Violations = append(res.Violations, v)
+				curStart.Store(0)
 			}
 			classes[v.Class()]++
 			st.Probes["violations_seen"]++
